@@ -65,7 +65,7 @@ theorem goL_near : ∀ (fuel : Nat) (a : Decimal) (k : Nat), Good0 a → 1 ≤ a
     by_cases hbig : k > 60
     · rw [if_pos hbig]
       obtain ⟨b, hb, hwf, hnz, htm, hbnd, hneg, _⟩ := leftShift_spec a hg.wf hg.nz hnd 60 (by norm_num) (by norm_num)
-      obtain ⟨b', hb', δ, d0, d1, dY⟩ := leftShift_approx a hg.wf hg.nz hnd 60 (by norm_num) (by norm_num)
+      obtain ⟨b', hb', δ, d0, d1, dY, _⟩ := leftShift_approx a hg.wf hg.nz hnd 60 (by norm_num) (by norm_num)
       rw [hb] at hb'; injection hb' with hb'; subst hb'
       rw [hb]
       simp only []
@@ -88,7 +88,7 @@ theorem goL_near : ∀ (fuel : Nat) (a : Decimal) (k : Nat), Good0 a → 1 ≤ a
           _ = aval c * (1 + eps) ^ (fuel + 1) := by rw [pow_succ]; ring
     · rw [if_neg hbig]
       obtain ⟨b, hb, hwf, hnz, htm, hbnd, hneg, _⟩ := leftShift_spec a hg.wf hg.nz hnd k hk1 (by omega)
-      obtain ⟨b', hb', δ, d0, d1, dY⟩ := leftShift_approx a hg.wf hg.nz hnd k hk1 (by omega)
+      obtain ⟨b', hb', δ, d0, d1, dY, _⟩ := leftShift_approx a hg.wf hg.nz hnd k hk1 (by omega)
       rw [hb] at hb'; injection hb' with hb'; subst hb'
       exact ⟨b, hb, (near_of_delta b hnz hbnd _ δ d0 d1 dY).mono (aval_nonneg b) (by omega)⟩
 
@@ -103,7 +103,7 @@ theorem goR_near : ∀ (fuel : Nat) (a : Decimal) (k : Nat), Good0 a → 1 ≤ a
     by_cases hbig : k > 60
     · rw [if_pos hbig]
       obtain ⟨hwf, hnz, htm, hpos, hneg, _⟩ := rightShift_spec a hg.wf 60 (by norm_num) (by norm_num)
-      obtain ⟨δ, d0, d1, dY⟩ := rightShift_approx a hg.wf hg.nz hnd 60 (by norm_num) (by norm_num)
+      obtain ⟨δ, d0, d1, dY, _⟩ := rightShift_approx a hg.wf hg.nz hnd 60 (by norm_num) (by norm_num)
       have hbnd := hpos hg.nz hnd
       have hcn := ih (rightShift a 60) (k - 60) ⟨hwf, hnz⟩ hbnd (by omega) (by omega)
       have hn1 : Near 1 (aval (rightShift a 60)) (aval a / 2 ^ 60) := near_of_delta _ hnz hbnd _ δ d0 d1 dY
@@ -122,7 +122,7 @@ theorem goR_near : ∀ (fuel : Nat) (a : Decimal) (k : Nat), Good0 a → 1 ≤ a
           _ = aval (Decimal.shift.goR 60 fuel (rightShift a 60) (k - 60)) * (1 + eps) ^ (fuel + 1) := by rw [pow_succ]; ring
     · rw [if_neg hbig]
       obtain ⟨hwf, hnz, htm, hpos, hneg, _⟩ := rightShift_spec a hg.wf k hk1 (by omega)
-      obtain ⟨δ, d0, d1, dY⟩ := rightShift_approx a hg.wf hg.nz hnd k hk1 (by omega)
+      obtain ⟨δ, d0, d1, dY, _⟩ := rightShift_approx a hg.wf hg.nz hnd k hk1 (by omega)
       exact (near_of_delta _ hnz (hpos hg.nz hnd) _ δ d0 d1 dY).mono (aval_nonneg _) (by omega)
 
 /-- **`Shift(k)`, any run**, `|k| ≤ 3840`: the result is `a · 2^k` up to at most 64 truncations -/
